@@ -144,6 +144,44 @@ Section Encoded.
       rewrite N.mod_small by (change (2 ^ 32) with 4294967296; lia). change (2 ^ 24) with 16777216. lia.
   Qed.
 
+  Lemma encoded_frame_verifies cfg rate channels bps fi b f n :
+    encode_frame ent qlpc cfg rate channels bps fi fi b = Ok f ->
+    cfg_max_parameter cfg <= 14 -> In bps [8; 12; 16; 20; 24] -> rate < 2 ^ 32 -> 1 <= channels <= 8 -> fi < 2 ^ 31 ->
+    (1 <= n)%nat -> N.of_nat n <= c_MAX_BLOCK_SIZE -> length b = (n * N.to_nat channels)%nat ->
+    block_hyps qlpc cfg fi channels bps b n -> samples_ok bps b = true ->
+    verify_frame f = true.
+  Proof.
+    intros E Hmp Hbps Hrate Hch Hfi Hn1 Hn Hlen Hblk Hso.
+    destruct (encoded_frame_canon cfg rate channels bps fi b f n E Hmp Hbps Hrate Hch Hfi Hn1 Hn Hlen Hblk Hso) as [Hc _].
+    apply (canonical_frame_verifies f channels bps Hc).
+    destruct (samples_ok_chans bps channels b Hbps Hso) as [Hbound Hrange].
+    assert (Hnum : fi < 2 ^ 36) by (change (2 ^ 31) with 2147483648 in Hfi; change (2 ^ 36) with 68719476736; lia).
+    destruct (frame_end_to_end_full ent qlpc cfg rate channels bps fi fi b f (mkSinfo 0 0 0 0 rate 0 bps 0 []) n
+                E Hmp Hbps Hrate Hch Hnum Hn1 Hn Hblk Hbound Hrange eq_refl eq_refl)
+      as (ctag & _ & _ & ((cha & Eh & _) & _) & _ & _).
+    unfold mk_header in Eh. destruct (block_size_code _) as [bc| |]; cbn [bind] in Eh; try discriminate.
+    apply Ok_inj in Eh. rewrite <- Eh. cbn [h_block]. exact Hn.
+  Qed.
+
+  Lemma encoded_blocks_verify cfg rate channels bps :
+    cfg_max_parameter cfg <= 14 -> In bps [8; 12; 16; 20; 24] -> rate < 2 ^ 32 -> 1 <= channels <= 8 ->
+    forall blocks fi frames,
+    encode_blocks ent qlpc cfg rate channels bps fi blocks = Ok frames ->
+    blocks_hyps qlpc cfg channels bps fi blocks ->
+    Forall (fun f => verify_frame f = true) frames.
+  Proof.
+    intros Hmp Hbps Hrate Hch. induction blocks as [|b br IH]; intros fi frames E Hh.
+    - cbn [encode_blocks] in E. apply Ok_inj in E. subst frames. constructor.
+    - cbn [encode_blocks] in E. destruct Hh as [(n & Hn1 & Hn & Hlen & Hblk) Hr].
+      destruct (encode_fixed_size_frame ent qlpc cfg rate channels bps fi fi b) as [f| |] eqn:Ef; cbn [bind] in E; try discriminate.
+      destruct (encode_blocks ent qlpc cfg rate channels bps (fi + 1) br) as [fs| |] eqn:Efs; cbn [bind] in E; try discriminate.
+      apply Ok_inj in E. subst frames. constructor; [|exact (IH _ _ Efs Hr)].
+      unfold encode_fixed_size_frame in Ef.
+      destruct (N.leb_spec (2 ^ 31) fi) as [?|Hfi]; [discriminate|].
+      destruct (samples_ok bps b) eqn:Hso; cbn [negb] in Ef; [|discriminate].
+      exact (encoded_frame_verifies cfg rate channels bps fi b f n Ef Hmp Hbps Hrate Hch Hfi Hn1 Hn Hlen Hblk Hso).
+  Qed.
+
   Lemma encoded_blocks_canon cfg rate channels bps :
     cfg_max_parameter cfg <= 14 -> In bps [8; 12; 16; 20; 24] -> rate < 2 ^ 32 -> 1 <= channels <= 8 ->
     forall blocks fi frames,
@@ -221,5 +259,57 @@ Section EncodedStream.
     - rewrite Hmt. constructor.
     - rewrite Sb. change c_MAX_BITS_PER_SAMPLE with 24. cbn [In] in Hbps. destruct Hbps as [<-|[<-|[<-|[<-|[<-|[]]]]]]; lia.
     - rewrite Sc, Sb, Hfr. eapply Forall_impl; [|exact Hcanon]. intros f [A _]. exact A.
+  Qed.
+
+  (* the tree the parser returns for an emitted stream (= the encoder's own, by the theorem above) verifies *)
+  Theorem encoded_stream_verifies cfg rate channels bps bs samples s (total : nat) :
+    encode_stream ent qlpc md5 cfg rate channels bps bs samples = Ok s ->
+    cfg_max_parameter cfg <= 14 -> In bps [8; 12; 16; 20; 24] -> rate <= 96000 -> 1 <= channels <= 8 ->
+    1 <= bs <= c_MAX_BLOCK_SIZE ->
+    length samples = (total * N.to_nat channels)%nat ->
+    (forall j b, nth_error (chunks (N.to_nat (bs * channels)) samples) j = Some b ->
+                 block_hyps qlpc cfg (N.of_nat j) channels bps b (length b / N.to_nat channels)) ->
+    verify_streaminfo (s_info s) = true /\ Forall (fun f => verify_frame f = true) (s_frames s).
+  Proof.
+    intros E Hmp Hbps Hrate Hch Hbs Hlen Hblocks.
+    pose proof (streaminfo_of_encoded ent qlpc md5 cfg rate channels bps bs samples s E) as Hsi. cbv zeta in Hsi.
+    destruct Hsi as (Sr & Sc & Sb & St & Sm & Smax & Smin & Sfr).
+    set (c := N.to_nat channels) in *. set (bsn := N.to_nat bs).
+    assert (Hk : N.to_nat (bs * channels) = (bsn * c)%nat) by (unfold bsn, c; lia).
+    unfold encode_stream in E. rewrite Hk in E, Hblocks.
+    set (blocks := chunks (bsn * c) samples) in *.
+    assert (Hchunked : chunked (bsn * c) c blocks).
+    { apply (chunks_chunked (bsn * c) c bsn samples total); [unfold bsn, c; nia | reflexivity | exact Hlen]. }
+    destruct (encode_blocks ent qlpc cfg rate channels bps 0 blocks) as [frames| |] eqn:Ebl; cbn [bind] in E; try discriminate.
+    assert (Hbsn : N.of_nat bsn = bs) by (unfold bsn; lia).
+    assert (Hhyps : blocks_hyps qlpc cfg channels bps 0 blocks).
+    { apply (blocks_hyps_of_nth qlpc cfg channels bps bsn); [lia | unfold bsn; lia | rewrite Hbsn; lia | exact Hchunked | exact Hblocks]. }
+    assert (Hr32 : rate < 2 ^ 32) by (change (2 ^ 32) with 4294967296; lia).
+    pose proof (encoded_blocks_verify ent qlpc cfg rate channels bps Hmp Hbps Hr32 Hch blocks 0 frames Ebl Hhyps) as Hver.
+    assert (Hfr : s_frames s = frames) by (apply Ok_inj in E; subst s; reflexivity).
+    clear E. split; [|rewrite Hfr; exact Hver].
+    unfold verify_streaminfo. rewrite Sr, Sc, Sb, Smin, Smax.
+    assert (A : (rate <=? 96000) = true) by (apply N.leb_le; exact Hrate).
+    assert (B : (1 <=? channels) = true) by (apply N.leb_le; lia).
+    assert (C : (channels <=? 8) = true) by (apply N.leb_le; lia).
+    assert (D : bps_ok bps = true) by (cbn [In] in Hbps; destruct Hbps as [<-|[<-|[<-|[<-|[<-|[]]]]]]; reflexivity).
+    rewrite A, B, C, D, !Bool.andb_true_r.
+    rewrite Hfr in Sfr. destruct frames as [|f0 fr] eqn:Efr.
+    - (* no frame: no block, no sample *)
+      assert (Hs0 : samples = []).
+      { assert (Hb0 : blocks = []).
+        { destruct blocks as [|b0 br]; [reflexivity|]. cbn [encode_blocks] in Ebl.
+          destruct (encode_fixed_size_frame _ _ _ _ _ _ _ _ b0) ; cbn [bind] in Ebl; try discriminate.
+          destruct (encode_blocks _ _ _ _ _ _ _ br); cbn [bind] in Ebl; discriminate. }
+        rewrite <- (chunks_concat (bsn * c) samples ltac:(unfold bsn, c; nia)). fold blocks. rewrite Hb0. reflexivity. }
+      rewrite St, Hs0. cbn [length]. rewrite N.div_0_l by lia. reflexivity.
+    - destruct (Sfr ltac:(discriminate)) as (Hmin & Hmax & Hall).
+      apply in_map_iff in Hmin. destruct Hmin as (fa & Ea & Hina).
+      apply Bool.orb_true_iff. right. unfold block_ok. change c_MAX_BLOCK_SIZE with 32767 in *.
+      assert (X1 : (bs <=? bs) = true) by (apply N.leb_le; lia).
+      assert (X2 : (bs <=? 32767) = true) by (apply N.leb_le; lia).
+      assert (X3 : (si_min_frame (s_info s) <=? si_max_frame (s_info s)) = true).
+      { apply N.leb_le. rewrite <- Ea. apply (Hall fa Hina). }
+      rewrite X1, X2, X3. reflexivity.
   Qed.
 End EncodedStream.
